@@ -17,6 +17,13 @@ def asbytes_spec(I, args, fr):
         return VSeq([Seg("A", r, smt.slen(r))], "bytes")
     if isinstance(v, VSeq):
         return VSeq(v.segs, "bytes")
+    from pyvc.values import VOpaque
+    if isinstance(v, VOpaque) and v.t is not None:
+        # an opaque library value used as bytes: some byte string determined by the value
+        f = z3.Function("uf_bytes_of", smt.Int, smt.Seq)
+        t = f(v.t)
+        I.st.assume(z3.And(smt.slen(t) >= 0, smt.slen(t) < 2 ** 20))
+        return VSeq([Seg("A", t, smt.slen(t))], "bytes")
     raise Unsupported("asbytes_spec of %s" % I.type_name(v))
 
 
